@@ -257,7 +257,25 @@ def analyse_memo(R, f, spec):
     keynames = set()
     for w in writes:
         keynames |= resolve_names(fn, w.slice)
-    missing = varying - keynames - set(spec.get('cursors', ()))
+    # a cursor is left out of the key because the function re-derives it
+    # from the level of the node before using it: that holds for a cursor
+    # that is rebound here (advanced in a loop, assigned from a search,
+    # the target of a `for`); one that is never rebound is an ordinary
+    # parameter
+    def rebound(cur):
+        for n in au.walk_no_defs(fn):
+            if isinstance(n, ast.AugAssign) and au.is_name(n.target, cur):
+                return True
+            if isinstance(n, ast.Assign) and any(
+                    cur in au.target_names(t) for t in n.targets):
+                return True
+            if isinstance(n, ast.For) and cur in au.target_names(n.target):
+                return True
+            if isinstance(n, ast.NamedExpr) and au.is_name(n.target, cur):
+                return True
+        return False
+    cursors = {c for c in spec.get('cursors', ()) if rebound(c)}
+    missing = varying - keynames - cursors
     if missing:
         R.violation(
             'R-MEMO', 'key-incomplete', q, memo,
@@ -293,19 +311,6 @@ def analyse_memo(R, f, spec):
                             f'node itself (`{lvl}`): a variable at exactly '
                             'this level is treated as absent',
                             unit=f.unit.rel, line=t.lineno)
-    # cursor parameters must really be re-derived before use: the function
-    # advances them in a loop against the node level
-    for cur in spec.get('cursors', ()):
-        adv = [n for n in au.walk_no_defs(fn)
-               if isinstance(n, ast.While) and any(
-                   isinstance(x, ast.AugAssign) and au.is_name(x.target, cur)
-                   for x in ast.walk(n))]
-        if not adv:
-            R.violation(
-                'R-MEMO', 'cursor', q, cur,
-                f'`{cur}` is excluded from the memo key as a cursor but is '
-                'no longer advanced against the node level',
-                unit=f.unit.rel, line=f.lineno)
     # (3) what is stored is what the miss path returns
     rets = [n for n in au.walk_no_defs(fn) if isinstance(n, ast.Return)
             and n.value is not None]
